@@ -76,6 +76,11 @@ pub trait Engine {
     }
     /// Did the case contain at least one fault / environment event / non-plain op?
     fn nontrivial(case: &Self::Case) -> bool;
+    /// Discriminating conditions of the input that become part of a process-level
+    /// violation class (hang / abort), where the worker cannot report anything itself.
+    fn tags(_case: &Self::Case) -> Vec<String> {
+        Vec::new()
+    }
 }
 
 // ------------------------------------------------------------ panic capture
@@ -201,7 +206,7 @@ pub fn run_range<E: Engine>(
             *n += 1;
             // minimise and report only the first few of each class per worker
             if *n <= 2 {
-                let (min, used) = minimise::<E>(&case, &v.key, 400);
+                let (min, used) = minimise::<E>(&case, &v.key, if cfg!(miri) { 10 } else { 400 });
                 let mut st2 = Stats::default();
                 let v2 = E::exec(&min, &mut st2).unwrap_or_else(|| v.clone());
                 let rec = json!({
